@@ -479,6 +479,9 @@ func RunWorker(t *testing.T) {
 			// determinism self-test: one line per run with everything that identifies its execution
 			f, _ := os.OpenFile(sl, os.O_APPEND|os.O_CREATE|os.O_WRONLY, 0644)
 			fmt.Fprintf(f, "%s steps=%d sig=%016x tape=%d viol=%v\n", id, st.Steps, fnv64(strings.Join(rc.sig, "|")), len(tape.Recorded()), v != nil)
+			if os.Getenv("VERIF_SIGLOG_PARTS") != "" {
+				fmt.Fprintf(f, "   parts: %s\n", strings.Join(rc.sig, " | "))
+			}
 			f.Close()
 		}
 		if rc.nontrivial {
